@@ -76,41 +76,42 @@ def perform(d: Doc, call: tuple[str, int], txtids: dict, prev_auto: Optional[int
     op, k = call
     ev: dict = {'op': op, 'who': -1, 'root': False, 'second': False, 'default': d.default, 'snap': False, 'exc': ''}
     try:
-        if op in ('claim_leading', 'unclaim_leading', 'claim_trailing', 'unclaim_trailing'):
-            m = d.mixins[k]
-            ev['who'] = d.ids[id(m)]
-            getattr(m, op + '_comment')()
-        elif op in ('claim_inner', 'unclaim_inner', 'claim_inner_one', 'unclaim_inner_one', 'claim_inner_bad', 'unclaim_inner_bad'):
-            w, rep = d.wrappers[k]
-            ev['who'] = d.ids.get(id(rep), -1)
-            if op == 'claim_inner':
-                w.claim_interleaving_comments()
-            elif op == 'unclaim_inner':
-                w.unclaim_interleaving_comments()
-            elif op == 'claim_inner_one':
-                ev['op'] = 'claim_inner'
-                free = [c for c in d.comments if not c.claimed]
-                w.claim_interleaving_comments(free[:1])
-            elif op == 'claim_inner_bad':
-                # a request that cannot be satisfied as a whole (one comment is not there): must be refused,
-                # and the comments that WERE found must stay exactly as they were
-                ev['op'] = 'claim_inner'
-                free = [c for c in d.comments if not c.claimed]
-                w.claim_interleaving_comments(free[:1] + [models.BlockComment.from_value('not in this document')])
-            elif op == 'unclaim_inner_bad':
-                ev['op'] = 'unclaim_inner'
-                mine = [it for it in rep.items if isinstance(it, models.BlockComment)]
-                w.unclaim_interleaving_comments(mine[:1] + [models.BlockComment.from_value('not in this document')])
-            else:
-                ev['op'] = 'unclaim_inner'
-                mine = [it for it in rep.items if isinstance(it, models.BlockComment)]
-                w.unclaim_interleaving_comments(mine[:1])
-        elif op == 'auto':
-            m = d.nodes[k][1]
-            ev['who'] = k
-            ev['root'] = m is d.file
-            ev['second'] = prev_auto == k
-            m.auto_claim_comments()
+      with common.guard():
+          if op in ('claim_leading', 'unclaim_leading', 'claim_trailing', 'unclaim_trailing'):
+              m = d.mixins[k]
+              ev['who'] = d.ids[id(m)]
+              getattr(m, op + '_comment')()
+          elif op in ('claim_inner', 'unclaim_inner', 'claim_inner_one', 'unclaim_inner_one', 'claim_inner_bad', 'unclaim_inner_bad'):
+              w, rep = d.wrappers[k]
+              ev['who'] = d.ids.get(id(rep), -1)
+              if op == 'claim_inner':
+                  w.claim_interleaving_comments()
+              elif op == 'unclaim_inner':
+                  w.unclaim_interleaving_comments()
+              elif op == 'claim_inner_one':
+                  ev['op'] = 'claim_inner'
+                  free = [c for c in d.comments if not c.claimed]
+                  w.claim_interleaving_comments(free[:1])
+              elif op == 'claim_inner_bad':
+                  # a request that cannot be satisfied as a whole (one comment is not there): must be refused,
+                  # and the comments that WERE found must stay exactly as they were
+                  ev['op'] = 'claim_inner'
+                  free = [c for c in d.comments if not c.claimed]
+                  w.claim_interleaving_comments(free[:1] + [models.BlockComment.from_value('not in this document')])
+              elif op == 'unclaim_inner_bad':
+                  ev['op'] = 'unclaim_inner'
+                  mine = [it for it in rep.items if isinstance(it, models.BlockComment)]
+                  w.unclaim_interleaving_comments(mine[:1] + [models.BlockComment.from_value('not in this document')])
+              else:
+                  ev['op'] = 'unclaim_inner'
+                  mine = [it for it in rep.items if isinstance(it, models.BlockComment)]
+                  w.unclaim_interleaving_comments(mine[:1])
+          elif op == 'auto':
+              m = d.nodes[k][1]
+              ev['who'] = k
+              ev['root'] = m is d.file
+              ev['second'] = prev_auto == k
+              m.auto_claim_comments()
     except ValueError:
         ev['exc'] = 'ValueError'
     except Exception as e:  # noqa: BLE001
@@ -299,7 +300,7 @@ def run(rep: common.Reporter, tier: str, prop: str) -> dict:
     with mp.Pool(16) as pool:
         jobs = [(seed + j, flavors, ch, 2 if tier == 'quick' else 6) for j, ch in enumerate(common.chunked(docs, 10))]
         jobs += [(seed + j, flavors, ch, -1) for j, ch in enumerate(common.chunked(docs_pp, 40))]   # ping-pong plans only
-        for tr in pool.imap_unordered(_chunk, jobs):
+        for tr in common.gmap(pool, rep, _chunk, jobs):
             traces.extend(tr)
     tv = validate(traces)
     for e in tv['errors']:
